@@ -45,6 +45,36 @@ claim("C11", "proof",
       "Lean kernel + standard axioms; the regex translator and the harness are trusted; clap is exercised only.",
       "Lean 4 proof over tables regenerated from source + complete finite correspondence of the guards", "5 (C11)")
 
+claim("C03", "proof",
+      "Lean 4 theorems (Props/C03.lean) about the model of AnalysisRunner, the writers' filters, CachedStdoutWriter, SarifWriter and "
+      "main's exit logic, for every project, every duplicate-free analysis order (hash order) and every option set: offered reports = "
+      "parser reports followed per definition by its CFG-generation and pass reports, each exactly once and independent of who looked "
+      "the definition up first; displayed = offered filtered by (level >= --level, id not allowed, not located solely in an included "
+      "file); exit 0 iff nothing displayed; summary count = number displayed; SARIF = displayed. Tie: the real runner in-process "
+      "(conservation measured directly against per-definition isolated runs; model batches = real batches) and the real binary over "
+      "the option lattice (exit, summary, printed diagnostics, SARIF incl. line/column recomputed from the original bytes).",
+      "Lean kernel + standard axioms; the model abstracts CFG generation and the passes as arbitrary functions (that is the quantifier); "
+      "codespan rendering and serde-sarif are exercised, not modelled; correspondence is sampled over generated projects.",
+      "Lean 4 proof (state-machine invariant + refinement to a flatMap spec) + differential runs over the option lattice", "5 (C03/C02/C17)")
+claim("C02", "proof",
+      "Lean 4 theorems (Props/C02.lean) on the same report-flow model: a definition whose CFG generation fails, or an error report from "
+      "the parser, yields a displayed error-level report and exit status 1 in every analysis order (given --level <= error and the id not "
+      "allowed); exit 0 with nothing allowed implies every definition lifted and had its batch handed to the writer. The hypotheses (each "
+      "failure door hands over a visible error report) are checked on the real pipeline. Tie: failure injection of every class (missing / "
+      "undecodable / dangling / extension-less file, bad pragma, lexical and syntactic error at token positions, unterminated comment, "
+      "truncation, parameter collision, tuple/anonymous-component misuse, read-before-assignment, several mains) into clean generated "
+      "projects, observed on the real binary at default level and --level error.",
+      "Lean kernel + standard axioms; parser-level failure classes are covered by the injection runs, not by a model of the LALRPOP parser.",
+      "Lean 4 proof on the report-flow model + failure injection on the real binary", "5 (C03/C02/C17)")
+claim("C17", "proof",
+      "Lean 4 theorems (Props/C17.lean): for any two duplicate-free analysis orders that are permutations of each other the displayed "
+      "findings are permutations of each other (same multiset), exit status and summary agree, and the batch of a definition is a function "
+      "of that definition alone (so adding/removing/reordering other definitions cannot change it). This proves the 'all hash-map iteration "
+      "orders' quantifier for the runner; hash order inside passes/SSA/TemplateLibrary is only sampled (partial): every project is run in "
+      "many separate processes (fresh hasher state), with definitions permuted, input files in both orders and unrelated definitions added.",
+      "Lean kernel + standard axioms; per-definition determinism of lifting, SSA and the passes is exercised by repeated runs, not proved.",
+      "Lean 4 proof (permutation invariance of the runner) + repeated/permuted process runs", "5 (C17)")
+
 ALL = ["C%02d" % i for i in range(1, 21)]
 def main():
     checks = []
